@@ -16,6 +16,7 @@ Inductive tstate :=
 | SecStop (id : nat)        (* seccomp-stop at the entry of the traced syscall instance [id] *)
 | EvStop (k : fkind)        (* PTRACE_EVENT_FORK / VFORK / CLONE stop of the parent *)
 | InitStop                  (* a new task, attached by the kernel, stopped before its first instruction *)
+| SigStop (sig : N)         (* signal-delivery-stop: a signal is about to be delivered to the task *)
 | Zombie (code : N)
 | Gone.
 
@@ -33,6 +34,7 @@ Inductive event :=
 | PSys (pid : Z) (id : nat)            (* a running task enters a syscall the filter marks as trace *)
 | PFork (pid child : Z) (k : fkind)    (* fork / vfork / clone *)
 | PExit (pid : Z) (code : N)
+| PSignal (pid : Z) (sig : N)          (* a signal (1..127) arrives for a running task: it stops and the tracer is told *)
 | TWait (pid : Z).                     (* wait4 reports this task to the tracer, which reacts *)
 
 Definition find_task (pid : Z) (ts : list task) : option task := find (fun t => Z.eqb (t_pid t) pid) ts.
@@ -52,6 +54,7 @@ Definition wstatus_of (s : tstate) : option N :=
   | SecStop _ => Some (ws_of_stop 5 7)
   | EvStop k => Some (ws_of_stop 5 (cause_of k))
   | InitStop => Some (ws_of_stop 19 0)
+  | SigStop sg => if (N.leb 1 sg && N.ltb sg 128)%bool then Some (ws_of_stop sg 0) else None
   | Zombie c => Some (ws_of_exit c)
   | Run | Gone => None
   end.
@@ -82,7 +85,7 @@ Definition apply_req (pid : Z) (w : world) (r : preq) : world :=
                  w_exec := match t_skip t with None => (pid, id) :: w_exec w | Some _ => w_exec w end;
                  w_ret := match t_skip t with None => w_ret w | Some r => (pid, id, r) :: w_ret w end;
                  w_dec := w_dec w |}
-          | EvStop _ | InitStop => with_tasks w (upd pid set_run (w_tasks w))
+          | EvStop _ | InitStop | SigStop _ => with_tasks w (upd pid set_run (w_tasks w))
           | _ => w
           end
       end
@@ -120,6 +123,14 @@ Definition step (w : world) (e : event) : world :=
       | PExit pid code =>
           match find_task pid (w_tasks w) with
           | Some t => match t_st t with Run => with_tasks w (upd pid (set_st (Zombie code)) (w_tasks w)) | _ => w end
+          | None => w
+          end
+      | PSignal pid sg =>
+          match find_task pid (w_tasks w) with
+          | Some t => match t_st t with
+                      | Run => if (N.leb 1 sg && N.ltb sg 128)%bool then with_tasks w (upd pid (set_st (SigStop sg)) (w_tasks w)) else w
+                      | _ => w
+                      end
           | None => w
           end
       | TWait pid =>
